@@ -340,3 +340,34 @@ func (g *Graph) witness(n *gen.Node, inh map[string]bool, rank map[string]int, d
 	}
 	return &gen.JV{Kind: n.Kind, Lit: n.Lit}
 }
+
+// HasCycle: some type reachable from the root can reach itself through
+// references of any kind.
+func (g *Graph) HasCycle() bool {
+	state := map[string]int{}
+	var visit func(name string) bool
+	visit = func(name string) bool {
+		switch state[name] {
+		case 1:
+			return true
+		case 2:
+			return false
+		}
+		state[name] = 1
+		if b := g.Types[name]; b != nil {
+			for _, r := range Referenced(b) {
+				if visit(r) {
+					return true
+				}
+			}
+		}
+		state[name] = 2
+		return false
+	}
+	for _, r := range Referenced(g.Root) {
+		if visit(r) {
+			return true
+		}
+	}
+	return false
+}
